@@ -117,6 +117,7 @@ func RunChildren(m *M, kind, stream string, lo, hi int64, par int, onDeath func(
 					}
 					fp, what, detail := onDeath(d)
 					m.ViolationAt(stream, last, fp, what, detail)
+					m.SampleAny(stream, detail)
 					m.AddEvals(last - j.lo + 1)
 					if last+1 < j.hi {
 						add(job{last + 1, j.hi})
